@@ -242,6 +242,8 @@ Section Proofs.
   Proof.
     intros [|x xs] [|y ys] H; simpl in H; try discriminate; [reflexivity|]. injection H as ->. reflexivity.
   Qed.
+  Example head_example (a b c : act) : hd_error [a; b] = hd_error [a; c; c] /\ [a; b] <> [a; c; c].
+  Proof. split; [reflexivity|discriminate]. Qed.
   Lemma policy_value_cons x t :
     policy_value O (x :: t) = (tanh_v O (v_proj O (final_ln O x)), move_proj O (final_ln O x)).
   Proof. reflexivity. Qed.
